@@ -12,7 +12,7 @@ A caller is therefore checked against the callee's contract text, never the call
 the contract text assumed for V in U's world is byte-for-byte the text proved in V's world.
 """
 from __future__ import annotations
-import os, re, importlib.util, glob
+import json, os, re, importlib.util, glob
 from dataclasses import dataclass, field
 from .rust_text import (AnchorLost, FnItem, find_fn, find_block_item, find_closures, split_top, split_param,
                         is_simple_pat, strip_comments, apply_template, tokenize, close_of, _norm)
@@ -101,6 +101,26 @@ def load_units() -> dict[str, Unit]:
                 raise RuntimeError(f"duplicate unit {u.name}")
             units[u.name] = u
     return units
+
+
+_NAMES = None
+
+
+def expected_names() -> dict:
+    """contracts/param_names.json: the parameter names (functions and annotated closures) the contracts were written against
+    (snapshot of the tree the contracts were developed on; regenerate with `python3 -m vx.names`)"""
+    global _NAMES
+    if _NAMES is None:
+        try:
+            with open(os.path.join(CONTRACTS, "param_names.json")) as f:
+                _NAMES = json.load(f)
+        except FileNotFoundError:
+            _NAMES = {}
+    return _NAMES
+
+
+def _bare(pat: str) -> str:
+    return re.sub(r"^mut\s+", "", pat.strip())
 
 
 class Repo:
@@ -227,16 +247,32 @@ def _fn_of(unit: Unit, repo: Repo) -> FnItem:
 
 
 def _params_e1(fn: FnItem, log: list, uname: str) -> tuple[str, str]:
-    """rule E1 on fn parameters: returns (param list text, let-lines)"""
+    """rule E1 on fn parameters: returns (param list text, let-lines).
+    Rule E1b (alpha-renaming): a simple parameter whose name differs from the name the contract was written against keeps the
+    contract's name in the signature and is re-bound under its current name at the top of the body (one simultaneous let)."""
     outs, lets = [], []
-    for k, p in enumerate(split_top(fn.params)):
+    plist = split_top(fn.params)
+    exp = expected_names().get(uname, {}).get("params")
+    ren_a, ren_e = [], []
+    if exp is not None and len(exp) != len(plist):
+        exp = None
+    for k, p in enumerate(plist):
         pat, ty = split_param(p)
         if is_simple_pat(pat) or not ty:
+            e = exp[k] if exp else None
+            if e and ty and is_simple_pat(e) and _bare(e) != _bare(pat) and "self" not in pat:
+                outs.append(f"{_bare(e)}: {' '.join(ty.split())}")
+                ren_a.append(" ".join(pat.split()))
+                ren_e.append(_bare(e))
+                log.append(f"E1b {uname}: parameter `{_bare(pat)}` is `{_bare(e)}` in the contract: signature keeps `{_bare(e)}`, body re-binds it as `{_bare(pat)}`")
+                continue
             outs.append(" ".join(p.split()))
         else:
             outs.append(f"__p{k}: {' '.join(ty.split())}")
             lets.append(f"let {' '.join(pat.split())} = __p{k};")
             log.append(f"E1 {uname}: parameter pattern `{' '.join(pat.split())}` -> __p{k} + let")
+    if ren_a:
+        lets.insert(0, f"let ({', '.join(ren_a)},) = ({', '.join(ren_e)},);")
     return ", ".join(outs), "\n        ".join(lets)
 
 
@@ -252,6 +288,28 @@ def render_header(unit: Unit, fn: FnItem, params: str, with_contract: bool) -> s
     return hdr
 
 
+def _anchor_sig(text: str) -> list:
+    """the name-independent part of an anchor: called names, path segments and method/field names (local variable names dropped)"""
+    toks = [t for t in tokenize(text)]
+    out = []
+    for i, t in enumerate(toks):
+        if t.kind != "ident":
+            continue
+        nxt = toks[i + 1].text if i + 1 < len(toks) else ""
+        prv = toks[i - 1].text if i else ""
+        if nxt == "(" or nxt == ":" and i + 2 < len(toks) and toks[i + 2].text == ":" or prv == "." or (prv == ":" and i >= 2 and toks[i - 2].text == ":"):
+            out.append(t.text)
+    return out
+
+
+def _anchor_in(expect: str, closure_text: str) -> bool:
+    """an anchor still holds after a renaming of local variables if its called names / paths occur, in order and contiguously, in the closure"""
+    a, b = _anchor_sig(expect), _anchor_sig(closure_text)
+    if not a:
+        return False
+    return any(b[i:i + len(a)] == a for i in range(len(b) - len(a) + 1))
+
+
 def _annotate_closures(body: str, unit: Unit, log: list) -> str:
     n_expected = len(find_closures(body))
     for k in sorted(unit.closures, reverse=True):
@@ -260,9 +318,13 @@ def _annotate_closures(body: str, unit: Unit, log: list) -> str:
         if k > len(cls):
             raise AnchorLost(f"{unit.name}: closure #{k} not found ({len(cls)} closures)")
         c = cls[k - 1]
-        if ann.expect and _norm(ann.expect) not in _norm(body[c.start:c.end]):
+        if ann.expect and _norm(ann.expect) not in _norm(body[c.start:c.end]) and not _anchor_in(ann.expect, body[c.start:c.end]):
             raise AnchorLost(f"{unit.name}: closure #{k} no longer contains `{ann.expect}`")
         ps, lets = [], []
+        cexp = expected_names().get(unit.name, {}).get("closures", {}).get(str(k))
+        if cexp is not None and len(cexp) != len(c.params):
+            cexp = None
+        ren_a, ren_e = [], []
         for i, (pat, ty) in enumerate(c.params):
             if not ty:
                 if not ann.types or i >= len(ann.types):
@@ -271,7 +333,14 @@ def _annotate_closures(body: str, unit: Unit, log: list) -> str:
             elif ann.types and i < len(ann.types) and ann.types[i] and _norm(ann.types[i]) != _norm(ty):
                 raise AnchorLost(f"{unit.name}: closure #{k} parameter {i} type changed: {ty}")
             if is_simple_pat(pat):
-                ps.append(f"{pat}: {ty}")
+                e = cexp[i] if cexp else None
+                if e and is_simple_pat(e) and _bare(e) != _bare(pat):
+                    ps.append(f"{_bare(e)}: {ty}")
+                    ren_a.append(pat)
+                    ren_e.append(_bare(e))
+                    log.append(f"E1b {unit.name}: closure #{k} parameter `{_bare(pat)}` is `{_bare(e)}` in the contract: re-bound in the body")
+                else:
+                    ps.append(f"{pat}: {ty}")
             else:
                 nm = f"__c{k}_{i}"
                 ps.append(f"{nm}: {ty}")
@@ -289,6 +358,8 @@ def _annotate_closures(body: str, unit: Unit, log: list) -> str:
         txt = head + "\n"
         txt += _clauses("requires", ann.requires, unit.name, f"cl{k}.pre", "            ")
         txt += _clauses("ensures", ann.ensures, unit.name, f"cl{k}.post", "            ")
+        if ren_a:
+            lets.insert(0, f"let ({', '.join(ren_a)},) = ({', '.join(ren_e)},);")
         inner = " ".join(lets) + ("\n" + ann.pre_body if ann.pre_body else "")
         txt += "        {" + (" " + inner if inner else "") + "\n" + c.body.strip("\n") + "\n        }"
         body = body[:c.start] + txt + body[c.end:]
@@ -324,6 +395,22 @@ def _annotate_loops(body: str, unit: Unit, log: list) -> str:
     return body
 
 
+def _rewrite_pattern(frm: str, to: str):
+    parts = re.split(r"@(\d)", frm)
+    pat, seen = "", set()
+    for i, part in enumerate(parts):
+        if i % 2 == 0:
+            if part.strip():
+                piece = r"\s*".join(re.escape(t.text) for t in tokenize(part))
+                pat += (r"\s*" if pat else "") + piece
+        else:
+            pat += (r"\s*" if pat else "") + (f"(?P=i{part})" if part in seen else f"(?P<i{part}>\\b[A-Za-z_]\\w*\\b)")
+            seen.add(part)
+    def repl(m):
+        return re.sub(r"@(\d)", lambda k: m.group("i" + k.group(1)), to)
+    return pat, repl
+
+
 def render_real(unit: Unit, repo: Repo, log: list) -> str:
     fn = _fn_of(unit, repo)
     params, lets = _params_e1(fn, log, unit.name)
@@ -338,10 +425,10 @@ def render_real(unit: Unit, repo: Repo, log: list) -> str:
         # rewritten, and whatever the rules do not cover is rejected by Verus itself (-> undecided, never an alarm)
         log.append(f"E4 {unit.name}: shape {rule} `{tpl}` -> `{rep}` x{n}" + ("" if n == count else f" (the store expects {count})"))
     for label, frm, to, count in unit.text_rewrites:
-        # whitespace-insensitive exact text
-        pat = r"\s*".join(re.escape(t.text) for t in tokenize(frm))
-        body, n = re.subn(pat, lambda m: to, body)
-        if n != count:
+        # whitespace-insensitive exact text; `@1`, `@2`, .. stand for one identifier each (a local name the rule does not depend on)
+        pat, to_re = _rewrite_pattern(frm, to)
+        body, n = re.subn(pat, to_re, body)
+        if count is not None and n != count and not (count == "+" and n >= 1):
             raise AnchorLost(f"{unit.name}: rewrite {label} `{frm}` matched {n} times, expected {count}")
         log.append(f"{label} {unit.name}: `{frm}` -> `{to}` x{n}")
     body = _annotate_closures(body, unit, log)
@@ -383,8 +470,9 @@ pub type QueryPath = String;
 """
 
 
-def build_world(target: str | None, units: dict[str, Unit], repo: Repo, mutate=None) -> tuple[str, dict, list]:
-    """returns (file text, {line number -> clause name}, log).  target=None: all stubs (spec sanity)."""
+def build_world(target: str | None, units: dict[str, Unit], repo: Repo, mutate=None, exclude=()) -> tuple[str, dict, list]:
+    """returns (file text, {line number -> clause name}, log).  target=None: all stubs (spec sanity).
+    `exclude`: units whose stub is left out (their text does not compile against this tree and the target does not need them)."""
     log: list = []
     parts = [PRELUDE.format(unit=target)]
     parts.append(open(os.path.join(CONTRACTS, "spec_arith.rs")).read())
@@ -418,9 +506,11 @@ def build_world(target: str | None, units: dict[str, Unit], repo: Repo, mutate=N
                 if mutate:
                     txt = mutate(txt)
                 parts.append(txt)
+            elif u.name in exclude:
+                log.append(f"stub of {u.name} left out of this world: it does not compile against this tree and the unit under proof does not call it")
             else:
                 try:
-                    parts.append(render_stub(u, repo, log))
+                    parts.append(f"/*@@stub {u.name}*/\n" + render_stub(u, repo, log) + f"/*@@end {u.name}*/")
                 except AnchorLost as e:
                     # the function no longer exists in /repo: no stub; a world that calls it will not compile (-> undecided)
                     log.append(f"stub skipped, anchor lost: {e}")
